@@ -119,6 +119,12 @@ def make_grid(kind, z0, zt, n):
         # slowly varying layer thickness: the top layer is 2 % thicker than the bottom one, at every n
         w = 1.0 + 0.02 * (np.arange(n) + 0.5) / float(n)
         return z0 + (zt - z0) * np.concatenate(([0.0], np.cumsum(w))) / np.sum(w)
+    if kind.startswith("almost-uniform"):
+        # layer thicknesses that agree to a relative 8e-6 / 5e-4 but are not equal (a grid read from a file, a stretched grid
+        # with a huge stretching scale): "the layers are the same" up to any tolerance is not "the same"
+        eps = 8e-6 if kind.endswith("6") else 5e-4
+        w = 1.0 + eps * (np.arange(n) + 0.5) / float(n)
+        return z0 + (zt - z0) * np.concatenate(([0.0], np.cumsum(w))) / np.sum(w)
     raise ValueError(kind)
 
 
@@ -424,10 +430,12 @@ def generate(tier, rng):
     # ---- order of the numerical mode
     c = 0
     for ci, const in enumerate(CONSTS + ([_rand_const(rng) for _ in range(6)] if thorough else [])):
-        for gk in ("uniform", "geometric", "gentle"):
+        for gk in ("uniform", "geometric", "gentle", "almost-uniform-6", "almost-uniform-4"):
             for ref in ("closed", "analytic"):
+                if gk.startswith("almost") and (ref == "analytic") != (ci % 2 == 0):
+                    continue
                 c += 1
-                n = {"uniform": 16, "gentle": 16, "geometric": 32 if ref == "closed" else 64}[gk]
+                n = {"uniform": 16, "gentle": 16, "geometric": 32 if ref == "closed" else 64, "almost-uniform-6": 32, "almost-uniform-4": 16}[gk]
                 if thorough and c % 3 == 0:
                     n *= 2
                 yield "order", dict(
